@@ -90,7 +90,11 @@ def check(spec, ctx):
         ctx.label("dangling")
     if any(m["spec"].get("dangling") for m in model.matches):
         ctx.label("dangling_applied")
+    if any(a.get("linktype") for _, _, a in spec["graph"]["edges"]):
+        ctx.label("labelled_graph_edge")
     for m in model.matches:
+        if any(e[2].get("linktype") for e in m["spec"]["edges"]):
+            ctx.label("labelled_link_applied")
         if m["spec"]["non_edges"]:
             ctx.label("non_edge_link_applied")
         if m["spec"]["patterns"]:
